@@ -90,6 +90,8 @@ fn trace_since(trace: &Option<PathBuf>, from: u64) -> (u64, Option<String>) {
             }
             return (len, None);
         }
+        // not created yet: hook H2 opens it at its first event
+        return (0, None);
     }
     (from, None)
 }
